@@ -25,7 +25,8 @@ PLANS = {
                   ("chain1_4", "chain1", 4, 3000, "simplify"), ("fuse1_3", "fuse1", 3, 4000, "simplify_m"),
                   ("betad3", "betad", 3, 4000, "simplify"), ("corea3", "corea", 3, 4000, "simplify_fresh"),
                   ("fused3", "fused", 3, 4000, "simplify"), ("betaw3", "betaw", 3, None, "simplify"),
-                  ("betads4", "betads", 4, None, "simplify"), ("betav2", "betav", 2, None, "simplify")],
+                  ("betads4", "betads", 4, None, "simplify"), ("betav2", "betav", 2, None, "simplify"),
+                  ("betadn4", "betadn", 4, None, "simplify")],
         "thorough": [("core3", "core", 3, None, "simplify"), ("beta3", "beta", 3, None, "simplify"),
                      ("betav3", "betav", 3, None, "simplify"),
                      ("corea3", "corea", 3, None, "simplify_fresh"),
@@ -33,7 +34,8 @@ PLANS = {
                      ("chain4", "chain", 4, 60000, "simplify"), ("fuse1_4", "fuse1", 4, 80000, "simplify_m"),
                      ("chain1_5", "chain1", 5, 60000, "simplify"), ("betad3", "betad", 3, None, "simplify"),
                      ("fused3", "fused", 3, None, "simplify"), ("betaw4", "betaw", 4, 60000, "simplify"),
-                     ("betads4", "betads", 4, None, "simplify")],     # (betad budget 4: > 18M derivation states)
+                     ("betads4", "betads", 4, None, "simplify"), ("betadn4", "betadn", 4, None, "simplify"),
+                     ("betadn5", "betadn", 5, 80000, "simplify")],     # (betad budget 4: > 18M derivation states)
         "random": {"quick": (400, 7), "thorough": (6000, 8)},
     },
     "C18": {
